@@ -1,6 +1,101 @@
+"""C19 - tools are total: any trace bytes give a clean exit, never a crash or hang."""
+import os
+import re
+import subprocess
+import sys
+
+from vp import core
 from vp.core import Obligation
 
 LEVEL_TEXT = "C19: memory safety + cursor progress of the tools' parsing units on arbitrary bytes."
+
+UTHASH = ["stubs/uthash_model"]
+NATIVE_GC = ["-ffunction-sections", "-fdata-sections", "-Wl,--gc-sections", "-Wl,--unresolved-symbols=ignore-all", "-no-pie"]
+
+# Confirmed defects of the tree (reported, /repo untouched): their signature is excluded from the main
+# queries with -DKF_<name>; run with C19_NO_KF=1 to see the unguarded verdicts.
+NO_KF = bool(os.environ.get("C19_NO_KF"))
+
+
+def kf(*names):
+    return [] if NO_KF else list(names)
+
+
+MODELS = ["ovni", "nosv", "nanos6", "nodes", "mpi", "tampi", "openmp", "kernel"]
+TYPES = {"u8": 1, "u16": 2, "u32": 4, "u64": 8, "i8": 1, "i16": 2, "i32": 4, "i64": 8, "str": 0}
+
+
+# same strings as synth_list[] in harness/C19/evspec.c
+SYNTH_DECLS = [("XAa(u8 a, i8 b, u16 c, i16 d, u32 e, i32 f)", "a=%{a} b=%{b} c=%{c} d=%{d} e=%{e} f=%{f}"),
+               ("XAb(u64 g, i64 h)", "g=%{g} h=%{h} 100%%"),
+               ("XAc+(u32 id, u16 k, str s)", "id=%{id} k=%{k} s='%{s}'"),
+               ("XAd(u16 x)", "only %5u{x} and %#x{x}")]
+
+
+class EvlistError(Exception):
+    pass
+
+
+def dump_evlist(sc, m):
+    """The model's REAL declaration list, read by a native program that includes src/emu/<m>/setup.c through the
+    shared handler environment: [(signature, description)] in evlist order."""
+    src = os.path.join(sc.dir, "c19_evlist_%s.c" % m)
+    exe = os.path.join(sc.dir, "c19_evlist_%s.exe" % m)
+    open(src, "w").write('#define ENV_NO_EVENTC\n#include "C08/model_env.h"\n#include <stdio.h>\n'
+                         'int main(void) {\n'
+                         '\tfor (struct ev_decl *d = M_SPEC.evlist; d->signature; d++)\n'
+                         '\t\tprintf("%s\\t%s\\n", d->signature, d->description);\n'
+                         '\treturn 0;\n}\n')
+    ob = Obligation(name="dump", harness="", incdirs=UTHASH)
+    cmd = ["gcc", "-std=gnu11", "-O0", "-w", "-DREPLAY", "-DM_%s" % m] + core.include_flags(sc.gen, ob) + NATIVE_GC + [src, "-o", exe, "-lm"]
+    p = subprocess.run(cmd, capture_output=True, text=True, timeout=300)
+    if p.returncode != 0:
+        raise EvlistError("native build of the evlist dumper for %s failed:\n%s" % (m, p.stderr[-3000:]))
+    p = subprocess.run([exe], capture_output=True, text=True, timeout=60)
+    if p.returncode != 0:
+        raise EvlistError("evlist dumper for %s failed" % m)
+    return [tuple(l.split("\t", 1)) for l in p.stdout.splitlines() if l.strip()]
+
+
+def ref_decl(sig, desc):
+    """Independent reference reading of a declaration (doc/dev/... signature syntax `MCV[+][(type name, ...)]`, description
+    with %fmt{name} regions).  Returns dict(mcv, jumbo, psize, stroff, need, shape): psize = declared payload size (4 for the
+    jumbo size word + fixed-width arguments), stroff = offset of a trailing str argument or -1, need = number of payload
+    bytes the description's argument references cover (what a decoder has to read)."""
+    m = re.match(r"^(...)(\+?)(?:\((.*)\))?$", sig, re.S)
+    if not m:
+        raise EvlistError("unparsable signature %r" % sig)
+    mcv, plus, args = m.group(1), m.group(2), m.group(3)
+    jumbo = plus == "+"
+    off = 4 if jumbo else 0
+    table = {}
+    types = []
+    stroff = -1
+    if args is not None:
+        for a in args.split(","):
+            parts = a.split()
+            if len(parts) != 2 or parts[0] not in TYPES:
+                raise EvlistError("unparsable argument %r in %r" % (a, sig))
+            table[parts[1]] = (off, TYPES[parts[0]], parts[0])
+            types.append(parts[0])
+            if parts[0] == "str":
+                stroff = off
+            off += TYPES[parts[0]]
+    refs = re.findall(r"%(?!%)([^{%]*)\{([A-Za-z0-9]+)\}", desc.replace("%%", ""))
+    need = 0
+    strref = 0
+    fmts = []
+    for fmt, name in refs:
+        if name not in table:
+            raise EvlistError("description of %r names an unknown argument %r" % (sig, name))
+        o, sz, t = table[name]
+        need = max(need, o + sz)
+        fmts.append(fmt)
+        if t == "str":
+            strref = 1
+    return dict(mcv=mcv, jumbo=int(jumbo), psize=off if args is not None else 0, stroff=stroff if strref else -1, need=need,
+                nrefs=len(refs), shape=(jumbo, tuple(types), tuple(fmts)))
+
 
 def obligations(tier, sc):
     obs = []
@@ -17,4 +112,71 @@ def obligations(tier, sc):
                   out="files longer than the bound; mmap/fstat failures",
                   oracle="independent tiler: accepted iff header ok; step result vs reference; all accesses inside the exact-size object; cursor strictly advances",
                   assumptions=["open/fstat/mmap/close stubs return the harness' exact-size object"])))
+
+    # ---- (1) payload-touching handlers through the real emu_ev()
+    for m in ("ovni", "nosv", "nanos6"):
+        guards = kf("KF_OHC_DEBUG") if m == "ovni" else kf("KF_D5_PRETYPE")
+        for slack in (0, 16):
+            obs.append(Obligation(
+                name="H_payload_%s_%s" % (m, "endaligned" if slack == 0 else "slack"), harness="C19/handler.c",
+                defines=["M_%s" % m, "SLACK=%d" % slack] + guards,
+                srcs=["src/rt/ovni.c"], incdirs=UTHASH, unwind=40, timeout=900, native_cflags=NATIVE_GC,
+                desc=dict(functions=["emu_ev", "ovni_payload_size", "model_%s_event and everything below it (src/emu/%s/event.c)" % (m, m)],
+                          symbolic="", bound="", out="", oracle="", assumptions=[])))
+
+    # ---- (3) ovnisort on arbitrary bytes
+    smx = 48 if tier == "quick" else 60
+    for mode in ("winsort", "check"):
+        obs.append(Obligation(
+            name="S_ovnisort_%s" % mode, harness="C19/sort.c",
+            defines=["MAXSZ=%d" % smx] + (["CHECKMODE"] if mode == "check" else kf("KF_SORT_CLOCK63")),
+            srcs=["src/rt/ovni.c", "src/emu/stream.c", "src/emu/path.c", "src/parson.c"],
+            unwind=smx + 2, timeout=1500, native_cflags=NATIVE_GC,
+            desc=dict(functions=[], symbolic="", bound="", out="", oracle="", assumptions=[])))
+
+    # ---- (2) ovnidump's decoder on an arbitrary event carrying a listed code
+    try:
+        evl = {m: [ref_decl(sg, d) for sg, d in dump_evlist(sc, m)] for m in MODELS}
+    except EvlistError as ex:
+        print("INCONCLUSIVE: cannot read the declaration lists from the working tree: %s" % ex, flush=True)
+        sc.cleanup()
+        sys.exit(2)
+
+    def evspec_ob(name, m, idx, decls, extra_defs=()):
+        wd = []
+        if any(d["nrefs"] and d["stroff"] < 0 for d in decls):
+            wd.append("W_ARGS")
+        if any(d["stroff"] >= 0 for d in decls):
+            wd.append("W_STR")
+        if any(d["nrefs"] == 0 for d in decls):
+            wd.append("W_NOARG")
+        lst = lambda key: ",".join(str(d[key]) for d in decls)
+        return Obligation(
+            name=name, harness="C19/evspec.c",
+            defines=["M_%s" % m, "EV_IDX=" + ",".join(str(i) for i in idx), "EV_PSIZE=" + lst("psize"), "EV_NEED=" + lst("need"),
+                     "EV_JUMBO=" + lst("jumbo"), "EV_STROFF=" + lst("stroff")] + wd + list(extra_defs) + kf("KF_D5_EVSPEC"),
+            srcs=["src/rt/ovni.c"], incdirs=UTHASH, unwind=300, timeout=1500, native_cflags=NATIVE_GC,
+            extra=["--object-bits", "12", "--max-field-sensitivity-array-size", "256"],
+            desc=dict(functions=["ev_spec_compile", "parse_signature", "parse_args", "parse_arg", "parse_type", "emu_ev", "ovni_payload_size",
+                                 "ev_spec_print", "format_region", "parse_printf_format", "parse_arg_name", "ev_spec_find_arg", "print_arg"],
+                      symbolic="", bound="", out="", oracle="", assumptions=[]))
+
+    for m in MODELS:
+        decls = evl[m]
+        if tier == "quick":
+            seen, idx = set(), []
+            for i, d in enumerate(decls):
+                if d["shape"] not in seen:
+                    seen.add(d["shape"])
+                    idx.append(i)
+            obs.append(evspec_ob("E_evspec_%s" % m, m, idx, [decls[i] for i in idx]))
+        else:
+            per = 12
+            for lo in range(0, len(decls), per):
+                idx = list(range(lo, min(lo + per, len(decls))))
+                obs.append(evspec_ob("E_evspec_%s_%03d_%03d" % (m, idx[0], idx[-1]), m, idx, [decls[i] for i in idx]))
+    # every argument type + the decoder's room bookkeeping (synthetic declarations, see harness)
+    synth = [ref_decl(sg, d) for sg, d in SYNTH_DECLS]
+    obs.append(evspec_ob("E_evspec_synth_all_types", "kernel", list(range(len(synth))), synth, ["SYNTH"]))
+    obs.append(evspec_ob("E_evspec_synth_smallbuf", "kernel", [3], [synth[3]], ["SYNTH", "SMALLBUF=24", "NUMLEN_MAX=6"]))
     return obs
